@@ -211,14 +211,15 @@ func TestC15(t *testing.T) {
 			desc := func() string {
 				return kind + " under writer faults, output " + fmt.Sprint(total) + " bytes\n" + d.String()
 			}
+			werr := rapid.SampledFrom(faults.WriteErrors).Draw(t, "writeerr")
 			for k := 0; k < total; k++ {
-				w := &faults.FailWriter{Limit: k}
+				w := &faults.FailWriter{Limit: k, Err: werr}
 				var err error
 				if perr := hx.Safely(func() { err = write(w) }); perr != nil {
 					t.Fatalf("%s panicked with the writer failing after %d of %d bytes: %v\n%s", kind, k, total, perr, desc())
 				}
 				if err == nil {
-					t.Fatalf("%s reported success although the writer accepted only %d of %d bytes\n%s", kind, len(w.Accepted), total, desc())
+					t.Fatalf("%s reported success although the writer accepted only %d of %d bytes and reported %v\n%s", kind, len(w.Accepted), total, werr, desc())
 				}
 			}
 			evC15.ClassN(kind+":positions", int64(total))
